@@ -10,6 +10,7 @@ From DC Require Graph.UltraGraph Graph.Spec Graph.ShortestPath.
 From DC Require Context.Model Context.Spec.
 From DC Require Collections.Model.
 From DC Require Causal.Model Causal.Entry Causal.Check.
+From DC Require CSM.Model.
 
 Extraction Language OCaml.
 
@@ -24,4 +25,5 @@ Extraction "model.ml"
   Graph.UltraGraph.ugraph_model_entry Graph.Spec.ugraph_check_entry Graph.ShortestPath.spath_check_entry
   Context.Model.context_model_entry Context.Spec.context_check_entry
   Collections.Model.collections_model_entry Collections.Model.collections_check_entry
-  Causal.Entry.causal_model_entry Causal.Check.c01_check_entry Causal.Check.c10_check_entry.
+  Causal.Entry.causal_model_entry Causal.Check.c01_check_entry Causal.Check.c10_check_entry
+  CSM.Model.csm_check_entry.
